@@ -251,4 +251,33 @@ theorem loop_last_step (A : Algo F τ α) :
         · exact Or.inr hex
     · rw [if_neg hg] at h; cases h; exact Or.inl rfl
 
+/-- `loop_last_step` with an invariant: the state in which the last step began satisfies it -/
+theorem loop_last_step_inv (A : Algo F τ α) (R : St F τ α → Prop)
+    (hstep : ∀ s s' v, R s → Guard s → A.step s = .ok (s', v) → R s')
+    (hbump : ∀ s, R s → R (bump s)) :
+    ∀ (fuel : Nat) (s s' : St F τ α), R s → A.loop fuel s = .ok s' →
+      s' = s ∨ ∃ sb sa v, R sb ∧ Guard sb ∧ A.step sb = .ok (sa, v) ∧ s' = bump sa := by
+  intro fuel
+  induction fuel with
+  | zero =>
+    intro s s' _ h
+    rw [loop_zero] at h
+    by_cases hg : Guard s
+    · rw [if_pos hg] at h; cases h
+    · rw [if_neg hg] at h; cases h; exact Or.inl rfl
+  | succ fuel ih =>
+    intro s s' hr h
+    rw [loop_succ] at h
+    by_cases hg : Guard s
+    · rw [if_pos hg] at h
+      cases hst : A.step s with
+      | error e => rw [hst] at h; cases h
+      | ok r =>
+        obtain ⟨s1, v⟩ := r
+        rw [hst] at h
+        rcases ih _ _ (hbump _ (hstep s s1 v hr hg hst)) h with rfl | hex
+        · exact Or.inr ⟨s, s1, v, hr, hg, hst, rfl⟩
+        · exact Or.inr hex
+    · rw [if_neg hg] at h; cases h; exact Or.inl rfl
+
 end Bpp.Optim
